@@ -13,6 +13,7 @@ U32X(hi,lo) == [k |-> "u32x",  hi |-> hi, lo |-> lo] \* big endian, hi16/lo16 li
 U32LE(v)    == [k |-> "u32le", v |-> v]           \* little endian, v < 2^31
 Raw(b)      == [k |-> "raw",   b |-> b]           \* literal bytes
 Fill(n, id) == [k |-> "fill",  n |-> n, id |-> id] \* n distinguishable payload bytes
+FillOff(n, id, off) == [k |-> "fillo", n |-> n, id |-> id, off |-> off] \* bytes off..off+n-1 of that pattern
 
 FieldLen(f) ==
   CASE f.k = "u8"    -> 1
@@ -23,6 +24,7 @@ FieldLen(f) ==
     [] f.k = "u32le" -> 4
     [] f.k = "raw"   -> Len(f.b)
     [] f.k = "fill"  -> f.n
+    [] f.k = "fillo" -> f.n
 
 RECURSIVE ByteLen(_)
 ByteLen(ld) == IF ld = <<>> THEN 0 ELSE FieldLen(Head(ld)) + ByteLen(Tail(ld))
@@ -39,6 +41,7 @@ FieldBytes(f) ==
     [] f.k = "u32le" -> <<f.v % 256, (f.v \div 256) % 256, (f.v \div 65536) % 256, f.v \div 16777216>>
     [] f.k = "raw"   -> f.b
     [] f.k = "fill"  -> [i \in 1..f.n |-> FillByte(f.id, i - 1)]
+    [] f.k = "fillo" -> [i \in 1..f.n |-> FillByte(f.id, f.off + i - 1)]
 
 RECURSIVE Bytes(_)
 Bytes(ld) == IF ld = <<>> THEN <<>> ELSE FieldBytes(Head(ld)) \o Bytes(Tail(ld))
